@@ -118,6 +118,13 @@ CLAIMS = {
             'Civil festivals over all 366 month-days x founding-year neighbourhoods; by index; carries; lunar festivals by index and by date for 4 scenario calendars (incl. a leap 12th month) with the earlier-listed rule; '
             'the holiday literal: 13-char grammar, real dates, strictly increasing, offsets land on rest days; from_ymd over every date of the covered years; next(+-1) for every record and longer steps.',
             'Civil dates of lunar festivals on the real calendar are numeric.', 'DESIGN.md §3 C20'),
+    'C10': ('whole-crate effect / lock / ownership analysis on type-checked MIR (rustc_private driver) + memo-transparency evaluation with a stub constructor + syntactic rules for RefCell memo cells',
+            'Inventory of every static (interior mutability, static mut, thread_local, unsafe) against a frozen list with reasons; who-may-touch per mutable static; strategy boxes never written by library code; '
+            'the one memo is transparent (injective key over 33k keys incl. all digit-concatenation and affine collision families, value = f(args), writer/reader field agreement, one critical section, never shrinks, refusals store nothing); '
+            'for every guard: no panic-capable callee while it is live unless the acquisition tolerates poisoning; no re-entrancy; lock order acyclic (dyn calls expanded to all impls); no clock/env/fs/net/thread/rng callee among all call sites; '
+            'hash-map iteration only where the leap table\'s uniqueness makes order irrelevant; values with RefCell memo cells are only built with empty cells in their constructor and each cell has one writer.',
+            'Trusted: rustc nightly MIR and callee resolution; std Mutex/RefCell semantics. OS scheduling itself needs no argument once these hold. User-installed providers are outside the statement.',
+            'DESIGN.md §3 C10'),
 }
 
 PENDING_REASON = 'check not built yet (DESIGN.md gives the planned static clauses); will be claimed once its rule engine exists'
@@ -173,7 +180,7 @@ def main():
     print('MANIFEST: %d claimed, %d not applicable/pending' % (len(checks), len(na)))
 
 
-MIR_USERS = set()
+MIR_USERS = {'C10'}
 
 if __name__ == '__main__':
     main()
